@@ -56,6 +56,8 @@ struct Session<'b, B: MutRB, const WK: bool> {
     freed: bool,
     len: usize,
     final_probe: Option<Vec<u64>>,
+    /// what `available()` answered in the operation just before this one (`adv <k> =<n>` advances by what the crate itself reported)
+    last_avail: Option<(St, usize)>,
 }
 
 impl<'b, T: ItemX, B: MutRB<Item = T>, const WK: bool> Session<'b, B, WK> {
@@ -102,11 +104,15 @@ impl<'b, T: ItemX, B: MutRB<Item = T>, const WK: bool> Session<'b, B, WK> {
             };
         }
         macro_rules! sl { ($r:expr) => { match $r { Some((h, t)) => { let s = self.slices(h, t); s } None => "none".to_string() } } }
-        let num = |i: usize| -> usize { words[i].parse().unwrap() };
+        let num = |i: usize| -> usize { words[i].trim_start_matches('=').parse().unwrap() };
         let bad = Ok("bad".to_string());
+        let prev_avail = self.last_avail.take();
         let r = match words[0] {
-            "avail" => { let k = st(words[1]); if !self.usable(k) { return bad; } format!("num {}", on!(k, it => it.available())) }
-            "adv" => { let k = st(words[1]); if !self.usable(k) { return bad; } let n = num(2); on!(k, it => unsafe { it.advance(n) }); "unit".into() }
+            "avail" => { let k = st(words[1]); if !self.usable(k) { return bad; } let a = on!(k, it => it.available()); self.last_avail = Some((k, a)); format!("num {}", a) }
+            "adv" => { let k = st(words[1]); if !self.usable(k) { return bad; }
+                // `adv <k> =<n>` directly after `avail <k>`: the usual `let n = it.available(); it.advance(n)` - by what the crate answered
+                let n = match prev_avail { Some((pk, a)) if pk == k && words[2].starts_with('=') => a, _ => num(2) };
+                on!(k, it => unsafe { it.advance(n) }); "unit".into() }
             "get1" => { let k = st(words[1]); if !self.usable(k) { return bad; }
                 let r: Option<*const T> = on!(k, it => it.get_workable().map(|x| x as *const T));
                 match r { Some(p) => format!("ref {} {}", self.off(p), unsafe { T::peek(p) }), None => "none".into() } }
@@ -339,10 +345,10 @@ macro_rules! heap_run {
                 let len = cfg.init.len();
                 if cfg.stages == 3 {
                     let (p, w, c) = buf.split_mut();
-                    run_session::<$T, _, true>(Session { p: Slot::Att(p), w: Slot::Att(w), c: Slot::Att(c), heap: true, freed: false, len, final_probe: None }, $ls, $out, Some("init ok"));
+                    run_session::<$T, _, true>(Session { p: Slot::Att(p), w: Slot::Att(w), c: Slot::Att(c), heap: true, freed: false, len, final_probe: None, last_avail: None }, $ls, $out, Some("init ok"));
                 } else {
                     let (p, c) = buf.split();
-                    run_session::<$T, _, false>(Session { p: Slot::Att(p), w: Slot::Gone, c: Slot::Att(c), heap: true, freed: false, len, final_probe: None }, $ls, $out, Some("init ok"));
+                    run_session::<$T, _, false>(Session { p: Slot::Att(p), w: Slot::Gone, c: Slot::Att(c), heap: true, freed: false, len, final_probe: None, last_avail: None }, $ls, $out, Some("init ok"));
                 }
             }
         }
@@ -387,10 +393,10 @@ macro_rules! stack_run_n {
                     if first == Some("unit") { logger().log.lock().unwrap().clear(); log_on(); }
                     let nx = if stages3 {
                         let (p, w, c) = buf.split_mut();
-                        run_session::<$T, _, true>(Session { p: Slot::Att(p), w: Slot::Att(w), c: Slot::Att(c), heap: false, freed: false, len: $N, final_probe: None }, &mut *lsr, $out, first)
+                        run_session::<$T, _, true>(Session { p: Slot::Att(p), w: Slot::Att(w), c: Slot::Att(c), heap: false, freed: false, len: $N, final_probe: None, last_avail: None }, &mut *lsr, $out, first)
                     } else {
                         let (p, c) = buf.split();
-                        run_session::<$T, _, false>(Session { p: Slot::Att(p), w: Slot::Gone, c: Slot::Att(c), heap: false, freed: false, len: $N, final_probe: None }, &mut *lsr, $out, first)
+                        run_session::<$T, _, false>(Session { p: Slot::Att(p), w: Slot::Gone, c: Slot::Att(c), heap: false, freed: false, len: $N, final_probe: None, last_avail: None }, &mut *lsr, $out, first)
                     };
                     match nx {
                         Next::End => { drop(buf); break }
